@@ -185,9 +185,11 @@ func check(c *fw.Ctx, all []kase) error {
 	if debug {
 		fmt.Fprintf(os.Stderr, "interpreter runs: %d cases in %.1fs\n", len(all), time.Since(t0).Seconds())
 	}
-	var fails []failure
-	var agree []int
-	samples := 0
+	// observations per case; a chunk whose child died is run again case by case, so
+	// that only the case that kills the interpreter is blamed
+	observed := make([]*obs, len(all))
+	died := map[int]string{}
+	var retry []int
 	for ji, r := range results {
 		var os_ []obs
 		if r.Out != nil {
@@ -195,24 +197,52 @@ func check(c *fw.Ctx, all []kase) error {
 		}
 		for x := range jobs[ji].([]beh) {
 			idx := ji*chunk + x
-			g := &all[idx].b
-			c.Count(g.key(), g.nontrivial())
-			c.TracesVsImpl++
-			if samples < 5 && g.nontrivial() && g.V == "done" && idx%7 == 0 {
-				samples++
-				c.Sample(map[string]any{"family": all[idx].family, "files": g.files(renderOpts{}), "expected_log": g.expectedLogs()[0]})
-			}
 			if r.Out == nil || x >= len(os_) {
-				fails = append(fails, failure{idx, obs{Err: "harness child " + r.Describe()}, outcome{mode: "interpreter crashed or hung (" + r.Describe() + ")"}})
+				retry = append(retry, idx)
 				continue
 			}
-			oc := g.judge(os_[x].Out, os_[x].Err)
-			if oc.ok {
-				agree = append(agree, idx)
-				continue
-			}
-			fails = append(fails, failure{idx, os_[x], oc})
+			o := os_[x]
+			observed[idx] = &o
 		}
+	}
+	if len(retry) > 0 {
+		var single []any
+		for _, idx := range retry {
+			single = append(single, []beh{all[idx].b})
+		}
+		for k, r := range c.RunChildren("c15", single, 16, 60*time.Second, nil) {
+			var os_ []obs
+			if r.Out != nil {
+				json.Unmarshal(r.Out, &os_)
+			}
+			if len(os_) == 1 {
+				observed[retry[k]] = &os_[0]
+			} else {
+				died[retry[k]] = r.Describe()
+			}
+		}
+	}
+	var fails []failure
+	var agree []int
+	samples := 0
+	for idx := range all {
+		g := &all[idx].b
+		c.Count(all[idx].key, g.nontrivial())
+		c.TracesVsImpl++
+		if samples < 5 && g.nontrivial() && g.V == "done" && idx%7 == 0 {
+			samples++
+			c.Sample(map[string]any{"family": all[idx].family, "files": g.files(renderOpts{}), "expected_log": g.expectedLogs()[0]})
+		}
+		if observed[idx] == nil {
+			fails = append(fails, failure{idx, obs{Err: "harness child " + died[idx]}, outcome{mode: "interpreter crashed or hung"}})
+			continue
+		}
+		oc := g.judge(observed[idx].Out, observed[idx].Err)
+		if oc.ok {
+			agree = append(agree, idx)
+			continue
+		}
+		fails = append(fails, failure{idx, *observed[idx], oc})
 	}
 	if debug {
 		fmt.Fprintf(os.Stderr, "agree=%d disagree=%d\n", len(agree), len(fails))
@@ -253,7 +283,7 @@ func settle(c *fw.Ctx, all []kase, fails []failure, agree []int) error {
 		var set []string
 		ok := false
 		if f.oc.mode != modeZero {
-			set, ok = g.attribute(f.oc.names, f.o.Err)
+			set, ok = g.attribute(f.oc.names, f.oc.marked, f.o.Err)
 		} else {
 			// the order is the specified one: the zero reads must be the second
 			// variables of pairs that read the first one
@@ -277,11 +307,52 @@ func settle(c *fw.Ctx, all []kase, fails []failure, agree []int) error {
 		}
 		atts[i] = a
 	}
-	// reference: bulk on every disagreement and on a sample of the agreeing cases
+	// reference: bulk on every disagreement (beyond a cap: on every one that no listed
+	// root cause predicts, on the first of every signature, and on an even sample of the
+	// rest) and on a sample of the agreeing cases
+	capN := c.Pick(1200, 8000)
+	inBulk := make([]int, len(fails)) // index in bulk, -1 when not sent to the reference
 	var bulk []*beh
-	for _, f := range fails {
-		bulk = append(bulk, &all[f.idx].b)
+	{
+		want := make([]bool, len(fails))
+		firstOf := map[string]bool{}
+		n := 0
+		for i, f := range fails {
+			s := atts[i].sig + " / " + f.oc.mode
+			if !atts[i].ok || !firstOf[s] {
+				firstOf[s] = true
+				want[i] = true
+				n++
+			}
+		}
+		if rest := len(fails) - n; rest > 0 {
+			room := capN - n
+			step := 1
+			if room <= 0 {
+				step = 0
+			} else if rest > room {
+				step = (rest + room - 1) / room
+			}
+			k := 0
+			for i := range fails {
+				if want[i] {
+					continue
+				}
+				if step > 0 && k%step == 0 {
+					want[i] = true
+				}
+				k++
+			}
+		}
+		for i, f := range fails {
+			inBulk[i] = -1
+			if want[i] {
+				inBulk[i] = len(bulk)
+				bulk = append(bulk, &all[f.idx].b)
+			}
+		}
 	}
+	nFailBulk := len(bulk)
 	nAgreeSample := 0
 	if c.Replay == "" {
 		step := c.Pick(60, 20)
@@ -299,27 +370,31 @@ func settle(c *fw.Ctx, all []kase, fails []failure, agree []int) error {
 	if debug {
 		fmt.Fprintf(os.Stderr, "bulk native: %d cases (%d agreeing sample) in %.1fs\n", len(bulk), nAgreeSample, time.Since(t0).Seconds())
 	}
-	refOK := make([]bool, len(fails))
+	bulkOK := make([]bool, len(bulk))
 	for i := range bulk {
 		ok, why := bulk[i].referenceAgrees(nat[i])
 		if !ok {
 			c.SpecError("specification vs toolchain: %s\nfiles: %v", why, bulk[i].files(renderOpts{}))
 		}
-		if i < len(fails) {
-			refOK[i] = ok
-		}
+		bulkOK[i] = ok
 	}
+	refOK := make([]bool, len(fails)) // corroborated by the reference
+	for i := range fails {
+		refOK[i] = inBulk[i] >= 0 && bulkOK[inBulk[i]]
+	}
+	c.Extra["disagreements_total"] = len(fails)
+	c.Extra["disagreements_shown_to_the_reference"] = nFailBulk
 	c.Extra["native_sample_of_agreeing_cases"] = nAgreeSample
 	// reference, exact sources: the first cases of every signature and every unexplained one
 	perSig := map[string]int{}
 	var exactIdx []int
 	for i, f := range fails {
 		s := atts[i].sig + " / " + f.oc.mode
-		lim := 3
+		lim := 1
 		if !atts[i].ok {
 			lim = 25
 		}
-		if perSig[s] < lim {
+		if perSig[s] < lim && (len(exactIdx) < 40 || !atts[i].ok) {
 			perSig[s]++
 			exactIdx = append(exactIdx, i)
 		}
